@@ -101,7 +101,18 @@ func c15RoundTrip(kind, maxLZ int) {
 	verifrt.Reach("signed")
 	verifrt.Assert(err == nil && got != nil && string(got.Payload) == string(payload), "a JWS produced by the library's signer verifies under the matching public JWK and returns the payload unchanged")
 
-	switch verifrt.Choose("tamper", 7) {
+	switch verifrt.Choose("tamper", 8) {
+	case 7: // the matching key with a coordinate of another width (an extra byte behind x, or x cut by one byte): another key
+		cp := *k.jwk
+		xb, derr := base64.RawURLEncoding.DecodeString(cp.X)
+		verifrt.Assume(derr == nil && len(xb) > 1)
+		if verifrt.Choose("x-width", 2) == 0 {
+			cp.X = base64.RawURLEncoding.EncodeToString(append(append([]byte{}, xb...), verifrt.AnyU8("extra-byte")))
+		} else {
+			cp.X = base64.RawURLEncoding.EncodeToString(xb[:len(xb)-1])
+		}
+		_, err := jwsutil.VerifyJWS(compact, &cp)
+		verifrt.Assert(err != nil, "verification under a key whose x has another width fails")
 	case 0: // another key of the same type
 		o := newKey("o", kind)
 		verifrt.Assume(o.jwk.X != k.jwk.X || o.jwk.Y != k.jwk.Y)
